@@ -3,6 +3,7 @@ import A2Verif.Lemmas.C09Td0
 import A2Verif.Lemmas.C09Dot2mg
 import A2Verif.Lemmas.C09Woz
 import A2Verif.Lemmas.C09Meta
+import A2Verif.Props.C09Img
 /-!
 # Property C09 — image encode/decode is stable and self-identifying
 
@@ -59,7 +60,8 @@ example : (∀ s ∈ exSecs, s.wf 0) ∧
 same type with the same geometry …, identical sector contents and metadata"*).  For every IMD image
 as a2kit holds it — 29-byte header with an accepted signature, a comment without the terminator byte
 0x1A, at least one track, every track with maps of the lengths its flag bits announce and a buffer of
-well-formed expanded sector records of its sector size — `to_bytes` does not panic and
+well-formed expanded sector records of its sector size (size code at most 6, as `from_bytes` demands; records of ANY mix of
+types: unavailable, normal, deleted-data, data-error) — `to_bytes` does not panic and
 `from_bytes` of the result returns exactly the same image: header, comment, every track header byte,
 all maps and every sector record. -/
 theorem imd_fromBytes_toBytes (x : Image) (h : ImageWf x) : (toBytes x).bind fromBytes = some (some x) :=
@@ -117,8 +119,9 @@ example : unpack 0 ([0, 0, 2] ++ [1, 60, 7, 9] ++ [0, 8, 1, 2, 3, 4, 5, 6, 7, 8]
 /-- **C09, TD0 container clause** (*"serialising … and parsing the bytes back gives … the same geometry, identical sector
 contents and metadata"*, normal layer).  For every TD0 image as a2kit holds it — 8 header bytes, optional
 comment with a 6-byte time stamp whose notes are in the in-memory form (no NUL, no CR LF pair, at most 65535 bytes
-once encoded), tracks whose sector count byte equals the number of sector records and is not the end mark 0xFF,
-sector records that are empty for no-data sectors and carry a correct length word otherwise — `from_bytes` of
+once encoded), at least one track, tracks whose sector count byte equals the number of sector records and is not the end mark 0xFF,
+sector records with a size code of at most 6 that are empty for no-data sectors (flags 0x10 / 0x20) and carry a correct
+length word otherwise (any encoding, any other flags) — `from_bytes` of
 what `to_bytes` wrote (before the external LZHUF stage) succeeds and returns the image itself with exactly the
 fields `to_bytes` recomputes (`canon`): comment flag, header CRC, comment CRC and length, track and sector CRC
 bytes.  In particular every header byte, the time stamp, the notes (LF ↔ NUL coding undone), every track and
@@ -163,7 +166,7 @@ example : (toBytesNormal exTd0).take 2 = [84, 68] ∧ (toBytesNormal exTd0)[7]? 
 
 /-- non-vacuity of the hypothesis of `td0_fromBytes_toBytes` -/
 example : ImageWf exTd0 := by
-  refine ⟨by decide, ?_, ?_⟩
+  refine ⟨by decide, by decide, ?_, ?_⟩
   · intro t ht
     have : t = exTd0.tracks.head (by decide) := by simpa [exTd0] using ht
     subst this
@@ -171,8 +174,8 @@ example : ImageWf exTd0 := by
     intro s hs
     simp only [exTd0, List.head_cons, List.mem_cons, List.not_mem_nil, or_false] at hs
     rcases hs with rfl | rfl
-    · exact Or.inr ⟨by decide, 5, 0, [1, 64, 0, 0xE5, 0xE5], rfl, by decide⟩
-    · exact Or.inl ⟨by decide, rfl⟩
+    · exact ⟨by decide, Or.inr ⟨by decide, 5, 0, [1, 64, 0, 0xE5, 0xE5], rfl, by decide⟩⟩
+    · exact ⟨by decide, Or.inl ⟨by decide, rfl⟩⟩
   · intro c hc
     have : c = { crc := [0, 0], len := [0, 0], stamp := [100, 0, 1, 0, 0, 0], text := [97, 10, 98] } := by
       simpa [exTd0] using hc.symm
@@ -444,6 +447,146 @@ theorem dot2mg_stable (x : Image) (h : Dot2mgWf x) :
     (fromBytes (toBytes x)).map toBytes = some (toBytes x) := by
   rw [dot2mg_roundtrip x h]
   simp only [Option.map, toBytes, Image.finalize]
+
+theorem header_fromBytes_wf (bs : List Nat) (h : Header) (hf : Header.fromBytes bs = some h) : h.wf := by
+  unfold Header.fromBytes at hf
+  split at hf
+  · simp at hf
+  · rename_i hl
+    have h64 : bs.length = 64 := by omega
+    simp only [DOT2MG_FIELDS, splitBy, Option.some.injEq] at hf
+    subst hf
+    simp only [Header.wf, Header.fields, DOT2MG_FIELDS, List.map_cons, List.map_nil, List.length_take, List.length_drop, h64]
+    decide
+
+/-- **C09, 2MG, files written by other programs** (*"2MG offsets and lengths are correct"*).  For EVERY byte string that
+`from_bytes` accepts — any data offset, comment and creator extents anywhere (in any order, overlapping, inside the data,
+ending at or beyond the end of the file, of length zero with a non-zero offset), text that is or is not UTF-8 — the object
+satisfies the hypotheses of `dot2mg_roundtrip`: whatever the header of the foreign file said, the fields that `to_bytes`
+recomputes depend only on the strings and the data the object holds. -/
+theorem dot2mg_foreign_wf (vc vr : Bool) (bs : List Nat) (x : Image) (hsmall : bs.length < 1073741824)
+    (h : fromBytesV vc vr bs = some x) : Dot2mgWf x := by
+  unfold fromBytesV at h
+  split at h
+  · simp at h
+  · cases hh : Header.fromBytes (bs.take 64) with
+    | none => simp [hh] at h
+    | some hd =>
+      simp only [hh] at h
+      split at h
+      · simp at h
+      · rename_i hmagic
+        split at h
+        · simp at h
+        · rename_i hfmt
+          split at h
+          · simp at h
+          · rename_i hlen
+            split at h
+            · simp at h
+            · rename_i hraw
+              split at h
+              · simp at h
+              · rename_i hblk
+                simp only [Option.some.injEq] at h
+                subst h
+                have hdl : ((bs.drop (rd32 hd.dataOffset)).take (rd32 hd.dataLen)).length = rd32 hd.dataLen := by
+                  simp only [List.length_take, List.length_drop]; omega
+                have hle : ∀ (o n : Nat) (v : Bool), (if bs.length < o + n then [] else if v then (bs.drop o).take n else []).length ≤ bs.length := by
+                  intro o n v
+                  split
+                  · simp
+                  · split
+                    · simp only [List.length_take, List.length_drop]; omega
+                    · simp
+                refine ⟨header_fromBytes_wf _ _ hh, by simpa using hmagic, by simpa using hfmt, hdl, ?_, ?_, ?_⟩
+                · simp only [hdl]; simpa using hraw
+                · intro h1
+                  simp only [hdl]
+                  by_cases hb : rd32 hd.blocks * 512 = rd32 hd.dataLen
+                  · exact hb
+                  · exact absurd ⟨h1, hb⟩ hblk
+                · have h1 := hle (rd32 hd.commentOffset) (rd32 hd.commentLen) vc
+                  have h2 := hle (rd32 hd.creatorOffset) (rd32 hd.creatorLen) vr
+                  simp only [hdl]
+                  have : rd32 hd.dataLen ≤ bs.length := by omega
+                  omega
+
+/-- … hence what a2kit saves for a loaded foreign file is consistent: the data starts at 64, the stored lengths are the
+lengths of the strings the object holds, the stored offsets are where the strings are in the saved file (0 for an empty
+one), the parts tile the file; the saved file loads to the same data and strings, and saving again gives identical
+bytes.  (The seeded change "lengths taken from the header" contradicts `commentLen`/`creatorLen` here.) -/
+theorem dot2mg_foreign_saved_consistent (vc vr : Bool) (bs : List Nat) (x : Image) (hsmall : bs.length < 1073741824)
+    (h : fromBytesV vc vr bs = some x) :
+    rd32 x.finalize.dataOffset = 64 ∧ rd32 x.finalize.commentLen = x.comment.length ∧ rd32 x.finalize.creatorLen = x.creator.length ∧
+      (x.comment ≠ [] → rd32 x.finalize.commentOffset = 64 + x.data.length) ∧
+      (x.creator ≠ [] → rd32 x.finalize.creatorOffset = 64 + x.data.length + x.comment.length) ∧
+      (toBytes x).length = 64 + x.data.length + x.comment.length + x.creator.length ∧
+      fromBytes (toBytes x) = some { x with header := x.finalize } ∧
+      (fromBytes (toBytes x)).map toBytes = some (toBytes x) := by
+  have hw := dot2mg_foreign_wf vc vr bs x hsmall h
+  have hsm := hw.small
+  have hH := header_length x.finalize (finalize_wf x hw.hdr)
+  have hcl : x.comment.length % 4294967296 = x.comment.length := Nat.mod_eq_of_lt (by omega)
+  have hrl : x.creator.length % 4294967296 = x.creator.length := Nat.mod_eq_of_lt (by omega)
+  refine ⟨?_, ?_, ?_, ?_, ?_, ?_, dot2mg_roundtrip x hw, dot2mg_stable x hw⟩
+  · show rd32 (w32 64) = 64
+    rw [rd32_w32]
+  · show rd32 (w32 _) = _
+    rw [rd32_w32, hcl, hcl]
+  · show rd32 (w32 _) = _
+    rw [rd32_w32, hrl, hrl]
+  · intro hne
+    have : x.comment.length ≠ 0 := by intro h0; exact hne (List.eq_nil_of_length_eq_zero h0)
+    show rd32 (w32 _) = _
+    rw [rd32_w32, hcl, if_neg this, ← hw.len]
+    exact Nat.mod_eq_of_lt (by omega)
+  · intro hne
+    have : x.creator.length ≠ 0 := by intro h0; exact hne (List.eq_nil_of_length_eq_zero h0)
+    show rd32 (w32 _) = _
+    rw [rd32_w32, hrl, hcl, if_neg this, ← hw.len]
+    exact Nat.mod_eq_of_lt (by omega)
+  · simp [toBytes, hH]; omega
+
+/-- the object with the header-length field as the repaired `to_bytes` leaves it -/
+def fixedLen (x : Image) : Image :=
+  let h : Header := { x.header with headerLen := [64, 0] }
+  { x with header := h }
+
+theorem toBytesF_false (x : Image) : toBytesF false x = toBytes x := rfl
+theorem toBytesF_true (x : Image) : toBytesF true x = toBytes (fixedLen x) := rfl
+
+theorem fixedLen_wf (x : Image) (h : Dot2mgWf x) : Dot2mgWf (fixedLen x) := by
+  refine ⟨?_, h.magic, h.fmt, h.len, h.raw, h.blocks, h.small⟩
+  have := h.hdr
+  unfold Header.wf Header.fields at *
+  simp only [fixedLen, List.map_cons, List.map_nil, List.length_cons, List.length_nil] at *
+  simp only [DOT2MG_FIELDS, List.cons.injEq] at *
+  simp [this]
+
+/-- **C09, 2MG, header-length field** (repaired code): whatever a loaded file claimed, the saved file says that its header
+is 64 bytes long — which it is — and still parses back to the same data and strings. -/
+theorem dot2mg_saved_header_len (x : Image) (h : Dot2mgWf x) :
+    ((toBytesF true x).drop 8).take 2 = [64, 0] ∧
+      fromBytes (toBytesF true x) = some { fixedLen x with header := (fixedLen x).finalize } := by
+  refine ⟨?_, by rw [toBytesF_true]; exact dot2mg_roundtrip _ (fixedLen_wf x h)⟩
+  have hw := (fixedLen_wf x h).hdr
+  have hfw := finalize_wf (fixedLen x) hw
+  unfold Header.wf Header.fields at hfw
+  simp only [DOT2MG_FIELDS, List.map_cons, List.map_nil, List.cons.injEq] at hfw
+  obtain ⟨h1, h2, _⟩ := hfw
+  rw [toBytesF_true]
+  simp only [toBytes, Header.toBytes, Header.fields, List.flatten_cons, List.append_assoc]
+  have e1 : (fixedLen x).finalize.magic.length = 4 := h1
+  have e2 : (fixedLen x).finalize.creatorId.length = 4 := h2
+  have hl : (fixedLen x).finalize.headerLen = [64, 0] := rfl
+  rw [hl]
+  have : ∀ (a b c : List Nat), a.length = 4 → b.length = 4 → ((a ++ (b ++ ([64, 0] ++ c))).drop 8).take 2 = [64, 0] := by
+    intro a b c ha hb
+    have : a ++ (b ++ ([64, 0] ++ c)) = (a ++ b) ++ ([64, 0] ++ c) := by simp
+    rw [this, List.drop_left' (by simp [ha, hb])]
+    rfl
+  exact this _ _ _ e1 e2
 
 /-- a 140K DOS-ordered image with comment and creator strings and stale offsets in the header -/
 def exHdr : Header where
